@@ -2,7 +2,7 @@
    ExtrOcamlBasic only: bool, option, unit, list, prod, sumbool, sumor map to the OCaml
    types; N / positive / nat stay Coq datatypes. *)
 From Coq Require Import ExtrOcamlBasic.
-From PG Require Import Base Mapping Spec Mapper CacheWriter CacheReader Stacktrace Java Metadata.
+From PG Require Import Base Mapping Spec Mapper CacheWriter CacheReader Stacktrace Java Metadata Sink Uuid.
 Extraction Language OCaml.
 Set Extraction AccessOpaque.
 Extraction "model.ml"
@@ -15,4 +15,5 @@ Extraction "model.ml"
   parse_throwable parse_frame print_frame print_throwable print_trace parse_trace
   remap_text remap_typed depth
   deobfuscate format_sig
-  has_line_info is_valid summarize.
+  has_line_info is_valid summarize
+  run_sink mapping_uuid.
